@@ -4,6 +4,8 @@ FRAGMENTS = {
     'break-outside-loop': ['break', 'if {1} break', 'repeat 2 begin hue 1 end break', 'define f begin break end',
                            'define f begin if {1} begin break end end', 'repeat 2 begin hue 1 end if {1} begin break end',
                            'repeat 2 begin define f begin break end end', 'if {1} begin hue 1 end else break'],
+    'return-outside-routine': ['return', 'return 5', 'if {1} return', 'repeat 2 begin return end', 'print 1 return print 2',
+                               'define f begin return 1 end return'],
     'assign-to-macro': ['define m 5 assign m 6', 'define m 5 repeat 2 begin assign m 1 end', 'define m "a" assign m "b"',
                         'define m 5 define f begin assign m 1 end', 'define m 5 assign m {m + 1}', 'define m 12:30 assign m 1'],
     'redefine-macro': ['define m 5 define m 6', 'define m 5 define m begin hue 1 end', 'define m 5 hue m define m "x"',
@@ -46,5 +48,7 @@ def texts():
             for cname, ctx in CONTEXTS:
                 if rule == 'break-outside-loop' and cname == 'in-loop':
                     continue     # inside a loop a break is legal
+                if rule == 'return-outside-routine' and cname == 'in-routine':
+                    continue     # inside a routine a return is legal
                 out.append((rule, cname, ctx % frag))
     return out
